@@ -552,6 +552,69 @@ def tree_numpy_any(t):
     return np.asarray(t)
 
 
+UNITE_OPS = {0: lambda a, b: a + b, 1: lambda a, b: a - b, 2: lambda a, b: 2 * a - 3 * b, 3: lambda a, b: a * b + a}
+UNITE_KEYS = ["a", "b", "c", "d", "e"]
+
+
+def gen_unite_cases(rng, n):
+    """Pairs of dicts with overlapping and non-overlapping keys (also disjoint / identical key sets),
+    every op id (1-3 are non-commutative), plain dicts and Vector-wrapped."""
+    cases = []
+    for i in range(n):
+        if i % 5 == 3:
+            kx, ky = ["a", "c"], ["b", "d"]                     # disjoint
+        elif i % 5 == 4:
+            kx = ky = ["b", "c", "e"]                           # identical key sets
+        else:
+            kx = [k for k in UNITE_KEYS if rng.random() < 0.6] or ["a"]
+            ky = [k for k in UNITE_KEYS if rng.random() < 0.6] or ["a"]
+            if not set(kx) & set(ky):
+                ky = ky + [kx[0]]                               # at least one overlapping key
+        shapes = {k: SHAPES[int(rng.integers(0, len(SHAPES)))] for k in UNITE_KEYS}
+        x = {k: rng.integers(-4, 5, size=shapes[k]).astype(np.float64) for k in kx}
+        y = {k: rng.integers(-4, 5, size=shapes[k]).astype(np.float64) for k in ky}
+        cases.append({"op": i % 4, "x": x, "y": y, "wrap": ["none", "both", "x", "y"][(i // 4) % 4]})
+    return cases
+
+
+def run_unite(case):
+    import nifty.re as jft
+    x, y = case["x"], case["y"]
+    xa = jft.Vector(x) if case["wrap"] in ("both", "x") else x
+    ya = jft.Vector(y) if case["wrap"] in ("both", "y") else y
+    from nifty.re.tree_math.forest_math import unite
+    r = unite(xa, ya, op=UNITE_OPS[case["op"]])
+    wrapped = hasattr(r, "tree")
+    return {k: np.asarray(v) for k, v in (r.tree if wrapped else r).items()}, wrapped
+
+
+def unite_check(case, out):
+    def al(d):
+        return "[" + ";".join("(%d%%nat,%s)" % (UNITE_KEYS.index(k), zl(np.ravel(d[k]))) for k in sorted(d)) + "]"
+    if not all(is_integral(v) for v in out.values()):
+        return "false"
+    return "chk_unite %d%%nat %s %s %s %s" % (case["op"], "[" + ";".join("%d%%nat" % i for i in range(len(UNITE_KEYS))) + "]",
+                                           al(case["x"]), al(case["y"]), al(out))
+
+
+def unite_direct(case, out, wrapped):
+    """unite against the flat reference: key by key op(x[k], y[k]) in THIS order on overlapping keys, the
+    present entry otherwise; the flat array is the concatenation over the sorted union of keys."""
+    fails = []
+    x, y, op = case["x"], case["y"], UNITE_OPS[case["op"]]
+    keys = sorted(set(x) | set(y))
+    want = {k: (op(x[k], y[k]) if (k in x and k in y) else (x[k] if k in x else y[k])) for k in keys}
+    ok = sorted(out) == keys and all(out[k].shape == np.shape(want[k]) and np.array_equal(out[k], want[k]) for k in keys)
+    ok = ok and np.array_equal(flat({k: out[k] for k in keys}), flat(want)) and wrapped == (case["wrap"] != "none")
+    if not ok:
+        k = next((k for k in keys if k not in out or not np.array_equal(out[k], want[k])), None)
+        fails.append(({"fn": "unite", "kind": "structure-helper"},
+                      "unite(x, y, op) with op id %d (x keys %s, y keys %s, Vector-wrapped: %s): entry %r is %s, op(x[k], y[k]) gives %s" % (
+                          case["op"], sorted(x), sorted(y), case["wrap"], k,
+                          None if k is None or k not in out else np.asarray(out[k]).tolist(), None if k is None else np.asarray(want[k]).tolist()), None))
+    return fails
+
+
 def float_map_direct(rng):
     """NIFTy's own test functions (transcendental) on random normal inputs, incl. None axes."""
     import jax
@@ -654,6 +717,18 @@ class C33(C.Check):
                 rc = res_coq(case, o)
                 fn_chk = "chk_vmap" if name == "vmap" else "chk_smap"
                 checks.append("false" if rc is None else "%s %d%%nat %s %s %s" % (fn_chk, case["fn"], args, oa, rc))
+        self.unite_cases = gen_unite_cases(ctx.rng(333), 24 if ctx.quick else 160)
+        self.unite_obs = []
+        for uc in self.unite_cases:
+            try:
+                out, wrapped = run_unite(uc)
+                self.unite_obs.append((out, wrapped))
+                t = unite_check(uc, out)
+            except Exception as e:
+                self.unite_obs.append(e)
+                t = "false"
+            meta.append({"what": "unite", "kind": "unite", "op": uc["op"]})
+            checks.append(t)
         bad = fasteval.eval_bools(self.prop, "corr", HEADER, checks, jobs=3)
         hints = []
         known_branch = 0
@@ -704,6 +779,16 @@ class C33(C.Check):
             for sig, what, _ in fs[:1]:
                 res.add_failing(sig, what, {"kind": "vector", "a": struct_to_json(a), "b": struct_to_json(b),
                                             "s": [complex(s).real, complex(s).imag], "complex": cplx})
+        for k, (uc, uo) in enumerate(zip(getattr(self, "unite_cases", []), getattr(self, "unite_obs", []))):
+            if len(res.failing) >= 3:
+                break
+            n += 1
+            if isinstance(uo, Exception):
+                fs = [({"fn": "unite", "kind": "structure-helper"}, "unite raised %r on two dicts / Vectors of dicts" % (uo,), None)]
+            else:
+                fs = unite_direct(uc, uo[0], uo[1])
+            for sig, what, _ in fs[:1]:
+                res.add_failing(sig, what, {"kind": "unite", "index": k, "quick": ctx.quick, "seed": ctx.seed})
         if not res.failing:
             for sig, what, inp in float_map_direct(ctx.rng(133)):
                 res.add_failing(sig, what, inp)
@@ -720,6 +805,14 @@ class C33(C.Check):
 
     def replay(self, ctx, rp):
         inp = rp["input"]
+        if inp.get("kind") == "unite":
+            ctx2 = C.Ctx(self.prop, "quick" if inp.get("quick", True) else "thorough", inp.get("seed", 0))
+            uc = gen_unite_cases(ctx2.rng(333), 24 if ctx2.quick else 160)[inp["index"]]
+            try:
+                out, wrapped = run_unite(uc)
+            except Exception:
+                return True
+            return bool(unite_direct(uc, out, wrapped))
         if inp.get("kind") == "map":
             case = inp["case"]
             return bool(map_direct(case, run_map_case(case, inp.get("seed", [0, 33, 0]))))
